@@ -203,6 +203,25 @@ fn k_aliases() {
     assert!(cfg.audio.is_none());
 }
 
+/// C18 (complete over all u64 timestamps): the individual metadata setters of the builder change exactly their own field - a title and a
+/// language configured earlier survive set_create_time, a title and a creation time survive set_language.
+#[kani::proof]
+#[kani::unwind(6)]
+fn k_metadata_setters() {
+    let t: u64 = kani::any();
+    let a = MuxerBuilder::new(()).with_metadata(Metadata::new().with_title("T").with_language("deu")).set_create_time(t);
+    let ma = a.metadata.as_ref().unwrap();
+    assert!(ma.creation_time == Some(t));
+    assert!(ma.title.as_deref() == Some("T"));
+    assert!(ma.language.as_deref() == Some("deu"));
+    let b = MuxerBuilder::new(()).with_metadata(Metadata::new().with_title("T").with_creation_time(t)).set_language("fra");
+    let mb = b.metadata.as_ref().unwrap();
+    assert!(mb.creation_time == Some(t));
+    assert!(mb.title.as_deref() == Some("T"));
+    assert!(mb.language.as_deref() == Some("fra"));
+    core::mem::forget(a); core::mem::forget(b);
+}
+
 /// C17 (complete over all u32 sample rates and u16 channel counts): building with audio codec `None` registers no audio track - neither at
 /// the API level nor with the container writer (the same as never calling audio()); building with a real codec registers exactly it.
 #[kani::proof]
